@@ -24,6 +24,7 @@ REJECTS = ('httperror', 'redirect', 'close')
 def run(repo, chk):
     _run(repo, chk)
     rule_g(repo, chk)
+    rule_h(repo, chk)
 
 
 def _run(repo, chk):
@@ -161,8 +162,8 @@ def _run(repo, chk):
     for m in mk500:
         q = pat.guarded_by(ge, m, pat.test_edge(lambda tt, pol: pol == 'T' and 'isinstance(fevent.args[0], socket)' in src(tt)))
         chk.ob('c', ex.ref, 'the 500 is built for events whose first argument is a socket', q is None, loc(ex, m.ast), discr='socket-branch')
-        p = Q.escapes(ge, [m], lambda n: n in fire)
-        chk.ob('c', ex.ref, 'the 500 response is sent through an httperror event on every path', p is None and bool(fire), loc(ex, m.ast),
+        p = Q.escapes(ge, [m], lambda n: n in fire, avoid_edge=pat.test_edge(lambda tt, pol: pol == 'T' and src(tt).endswith('.handled')))
+        chk.ob('c', ex.ref, 'the 500 response is sent through an httperror event on every path (unless the request was answered with an error before)', p is None and bool(fire), loc(ex, m.ast),
                path=pat.path_lines(p, m) if p else None, discr='500-fired')
     chk.ob('c', ex.ref, 'httperror is fired from one site of the safety net', len(fire) == 1, loc(ex, ex.node), discr='fired-once')
     # the net must hold whatever state the failed handler left behind: the branch for failed read handlers does not consult the
@@ -232,3 +233,35 @@ def rule_g(repo, chk):
     ok = bool(lt) and bool(isin) and all(leads_to_empty(m) for m in lt + isin) and \
         all(Q.escapes(gs, [gs.entry], lambda n: n is m, exits=('exit',)) is None for m in lt[:1])
     chk.ob('g', st.ref, 'errors with a status below 200 or 204/304 render an empty body', ok, loc(st, st.node), discr='bodiless-status-empty')
+
+
+def rule_h(repo, chk):
+    """Across reads: the pending (request, response) entry lets later reads of the same message skip the header-phase decisions."""
+    chk.rule('C14.h', 'a reject decided only on the first read of a message (inside the "no pending entry" branch) never leaves a pending entry or the parser '
+                      'behind: later data for that message cannot skip the decision and reach the request fire')
+    h = repo.func(WEB_HTTP, 'HTTP._on_read')
+    g = h.cfg()
+    sock = h.params[1]
+    first = [e for n in g.nodes if n.kind == 'test' for e in n.succ
+             if pat.fact_matches(pat.compare_fact(n.ast, e.kind), sock, ('not in',), 'self._clients')]
+    need(first, 'C14.h: _on_read has no "pending entry" test')
+    stores = [n for n in g.nodes if n.kind == 'stmt' and isinstance(n.ast, ast.Assign) and any(src(t) == f'self._clients[{sock}]' for t in n.ast.targets)]
+    need(stores, 'C14.h: _on_read never stores the pending entry')
+    dels_c = [n for n in g.nodes if n.kind == 'stmt' and isinstance(n.ast, ast.Delete) and any(src(t) == f'self._clients[{sock}]' for t in n.ast.targets)]
+    dels_b = [n for n in g.nodes if n.kind == 'stmt' and isinstance(n.ast, ast.Delete) and any(src(t) == f'self._buffers[{sock}]' for t in n.ast.targets)]
+    rejects = [(n, pat.event_ctor_name(e)) for n in g.nodes if n.kind == 'stmt' for _c, _r, e in pat.fire_calls(n.ast) if pat.event_ctor_name(e) in REJECTS]
+    n_first = 0
+    for n, name in rejects:
+        only_first = any(pat.guarded_by(g, n, lambda e, fe=fe: e is fe) is None for fe in first)
+        if not only_first:
+            continue      # decided again on every read: a pending entry cannot skip it
+        n_first += 1
+        left = None
+        for s_ in stores:
+            left = left or Q.reachable_without(g, n, start=s_, avoid_node=lambda m: m in dels_c)
+        chk.ob('h', h.ref, f'the first-read-only `{name}` reject leaves no pending (request, response) entry', left is None, loc(h, n.ast),
+               path=pat.path_lines(left) if left else None, discr=f'first-read-reject-no-entry:{name}:{_case(n)}')
+        q = Q.reachable_without(g, n, avoid_node=lambda m: m in dels_b)
+        chk.ob('h', h.ref, f'the first-read-only `{name}` reject drops the parser', q is None and bool(dels_b), loc(h, n.ast),
+               path=pat.path_lines(q) if q else None, discr=f'first-read-reject-no-parser:{name}:{_case(n)}')
+    need(n_first >= 1, 'C14.h: no first-read-only reject found (the 505 reject was confirmed by hand)')
